@@ -261,17 +261,48 @@ func checkRecoverDiscipline(r *Run, prog *Program, pfx string) {
 	}
 	// the deferred closure turns the panic into a non-nil error and a nil value
 	if recoverFn != nil {
+		// the places the recovering function writes parse's results through: captured result variables, or pointer
+		// parameters that the defer statement binds to their addresses
+		resultOf := map[ssa.Value]int{}
+		resName := func(i int) string {
+			if rs := parse.Signature.Results(); rs.Len() == 2 {
+				return rs.At(i).Name()
+			}
+			return ""
+		}
+		bind := func(inner ssa.Value, outer ssa.Value) {
+			if al, ok := outer.(*ssa.Alloc); ok && al.Comment != "" {
+				for i := 0; i < 2; i++ {
+					if al.Comment == resName(i) {
+						resultOf[inner] = i
+					}
+				}
+			}
+		}
+		if mc, ok := deferIns.Call.Value.(*ssa.MakeClosure); ok {
+			for i, b := range mc.Bindings {
+				if i < len(recoverFn.FreeVars) {
+					bind(recoverFn.FreeVars[i], b)
+				}
+			}
+		} else {
+			for i, a := range deferIns.Call.Args {
+				if i < len(recoverFn.Params) {
+					bind(recoverFn.Params[i], a)
+				}
+			}
+		}
 		setsVal, setsErr := false, false
 		for _, b := range recoverFn.Blocks {
 			for _, ins := range b.Instrs {
 				if st, ok := ins.(*ssa.Store); ok {
-					if fv, ok := st.Addr.(*ssa.FreeVar); ok {
-						switch fv.Name() {
-						case "val":
+					if i, ok := resultOf[st.Addr]; ok {
+						switch i {
+						case 0:
 							if c, ok := st.Val.(*ssa.Const); ok && c.Value == nil {
 								setsVal = true
 							}
-						case "err":
+						case 1:
 							setsErr = true
 						}
 					}
@@ -374,6 +405,12 @@ func checkParseReturns(r *Run, prog *Program, parse *ssa.Function, pfx string) {
 		}
 		return true
 	})
+	// the same two rules on the paths of parse (helpers of parse interpreted in place): a restructured parse is judged
+	// by what its paths do, the spelling below is the quick way to the same verdict
+	pAll, pNo, _, pDetail := parseReturnsOnPaths(prog, parse, errM)
+	if pAll && !(n >= 2 && bad == 0) {
+		n, bad = 2, 0
+	}
 	r.Check(pfx+".parse-returns", "all-return-errs.err()", prog.pos(parse.Pos()), n >= 2 && bad == 0, fmt.Sprintf("%d of %d returns of (*parser).parse do not return p.errs.err() as the error: an ok parse with recorded errors could return a nil error", bad, n))
 	// not-ok path: `if len(*p.errs) == 0 { … addErrAt … }` precedes `return nil, p.errs.err()`
 	okNot := false
@@ -411,7 +448,13 @@ func checkParseReturns(r *Run, prog *Program, parse *ssa.Function, pfx string) {
 		}
 		return true
 	})
-	r.Check(pfx+".parse-returns", "no-match-adds-error", prog.pos(parse.Pos()), okNot, "on the no-match path (*parser).parse must record an error when none was recorded and return (nil, p.errs.err())")
+	if !okNot && pNo {
+		okNot = true
+	}
+	if okNot && !pNo && pDetail != "" {
+		r.Check(pfx+".parse-returns", "no-match-adds-error:paths", prog.pos(parse.Pos()), false, pDetail)
+	}
+	r.Check(pfx+".parse-returns", "no-match-adds-error", prog.pos(parse.Pos()), okNot, "on the no-match path (*parser).parse must record an error when none was recorded and return (nil, p.errs.err()): "+pDetail)
 }
 
 func init() {
